@@ -1161,6 +1161,20 @@ func wrapAny(val Node, targetType *Type) Node {
 		panic(fmt.Sprintf("internal error: untyped map: %s incompatible types: target %v, value %v", val.Token().Location(), targetType, valType))
 	}
 
+	if targetType.Name == ARRAY && valType.Name == ARRAY {
+		// array concatenation or grouping of literals that still contain
+		// untyped empty arrays, e.g. [[]] + [[1]]
+		switch v := val.(type) {
+		case *BinaryExpression:
+			v.Left = wrapAny(v.Left, targetType)
+			v.Right = wrapAny(v.Right, targetType)
+			v.T = targetType
+			return v
+		case *GroupExpression:
+			v.Expr = wrapAny(v.Expr, targetType)
+			return v
+		}
+	}
 	arrayLit, ok := val.(*ArrayLiteral)
 	if targetType.Name == ARRAY && ok {
 		for i, el := range arrayLit.Elements {
